@@ -16,8 +16,8 @@ package writer
 //verif:assume virtual-table registration, stream-id creation and the in-memory buffer are stubs (the buffer stub captures the events it is given); the timestamp key is "timestamp"
 
 import (
-	"github.com/siglens/siglens/pkg/segment/writer"
 	sutils "github.com/siglens/siglens/pkg/segment/utils"
+	"github.com/siglens/siglens/pkg/segment/writer"
 	zz "github.com/siglens/siglens/pkg/zzverif"
 )
 
@@ -27,7 +27,7 @@ func verifC16RealIndexName(indexNameIn string, localIndexMap map[string]string, 
 	return indexNameIn
 }
 func verifC16StreamId(indexName string, orgId int64) string { return "s" }
-func verifC16TsKey() string                                  { return "timestamp" }
+func verifC16TsKey() string                                 { return "timestamp" }
 func verifC16Capture(streamid string, indexName string, flush bool, signalType sutils.SIGNAL_TYPE, orgid int64, rid uint64,
 	cnameCacheByteHashToStr map[uint64]string, jsParsingStackbuf []byte, pleArray []*writer.ParsedLogEvent) error {
 	verifC16Got = pleArray
